@@ -415,6 +415,17 @@ def run_script(en, plan, limit):
 
 
 # --------------------------------------------------------------------------- one case
+def impl_flags():
+    """which of the proposed repairs the implementation under test contains (read from its source): the
+    model has a switch for each (Env.fixM, Arith.mulFirst)"""
+    import inspect
+    from synth.syntax.grammars.enumeration.constant_delay import CDSearch
+    from synth.syntax.grammars.enumeration.constant_delay_queue import CDQueue
+    fix_m = "max(1, int(self.M))" in inspect.getsource(CDSearch.__init__)
+    mul_first = "int(cost * self.k / maxi)" in inspect.getsource(CDQueue.__push__)
+    return fix_m, mul_first
+
+
 def run_case(case, M, tier="quick"):
     from synth.syntax.grammars.tagged_det_grammar import ProbDetGrammar
     from synth.syntax.grammars.enumeration.constant_delay import enumerate_prob_grammar
@@ -465,12 +476,13 @@ def run_case(case, M, tier="quick"):
     else:
         rejected = []
     scriptw = [[Sym("take"), a[1]] if a[0] == "take" else [Sym("merge"), wire.prog(a[1]), wire.ty(a[2])] for a in script]
-    ans = M.ask([Sym("cd.run"), gw, k, [wire.prog(p) for p in rejected], scriptw, FUEL])
+    fix_m, mul_first = impl_flags()
+    ans = M.ask([Sym("cd.run"), gw, k, [wire.prog(p) for p in rejected], scriptw, FUEL, fix_m, mul_first])
     rf, rr, na = ans
     corr = []
     out = {"g": g, "costs": costs, "probs": probs, "lang": lang, "steps": steps, "script": script, "err": err, "pred": pred,
            "en": en, "wire": wire, "corr": corr, "rejected": rejected, "fresh": fresh, "rec": rec, "table_bad": table_bad,
-           "float_exact": None, "ys": ys, "assert_only": rf[0] == "undef" and str(na) == "ok", "M": [(q.maxi, q.k) for q in en._queue_derivation.values()]}
+           "float_exact": None, "ys": ys, "assert_only": rf[0] == "undef" and str(na) == "ok", "fix_m": fix_m, "M": [(q.maxi, q.k) for q in en._queue_derivation.values()]}
     if rf[0] == "undef":
         if err is None:
             corr.append(("model undefined (fuel or uncaught exception) where the implementation runs", ""))
@@ -519,7 +531,7 @@ def raise_finding(r, pid):
     the enumerator raise: all costs equal (ZeroDivisionError), and `the model is undefined with the
     assert of CDQueue.push and defined without it` (AssertionError: the bound M of __compute_bounds__ is
     smaller than the spread of a derivation queue)"""
-    if equal_costs(r):
+    if equal_costs(r) and not r.get("fix_m"):
         return FINDING_IDS[pid]["zerodiv"]
     if r.get("assert_only"):
         return FINDING_IDS[pid]["assert"]
